@@ -222,6 +222,37 @@ func C11(p *engine.Prog, r *engine.Report) {
 		ok := clr != nil && rd != nil && engine.InstrDominates(clr, rd) && engine.PathOf(clr.Common().Args[0]) == engine.PathOf(rd.Common().Args[0])
 		r.Check(ok, "C11-R3", x.typ+".RecoverSnapshot2|target prefix cleared before import", p.Pos(f.Pos()), "ClearDb(pdb) dominates ReadTreeFrom2(pdb, …)", "import into a prefix that may hold leftovers of an earlier attempt")
 	}
+	// the root an imported snapshot is verified against is the canonical header's, not the (unauthenticated) manifest's
+	if pc := mustFunc(p, r, "protocol", "fastSync.postConsuming"); pc != nil {
+		n := 0
+		for _, c := range engine.Calls(pc) {
+			if !engine.CallNameIs(c, "RecoverSnapshot2") {
+				continue
+			}
+			n++
+			args := engine.CallArgs(c)
+			fromHead, fromManifest := false, false
+			for _, a := range args[1:] {
+				if nn := engine.NamedOf(a.Type()); nn == nil || nn.Obj().Name() != "Hash" {
+					continue
+				}
+				for v := range engine.BackSlice(a, engine.DefaultSlice) {
+					if cc, ok := v.(*ssa.Call); ok && engine.CallIs(cc, "blockchain/types.Header.Root") {
+						if _, isPH := loadOfField(cc.Call.Args[0], "Blockchain", "PreliminaryHead"); isPH {
+							fromHead = true
+						}
+					}
+					if o, fld, ok := engine.FieldOf(v); ok && o == "Manifest" && fld == "Root" {
+						fromManifest = true
+					}
+				}
+			}
+			r.Check(fromHead && !fromManifest, "C11-R3", "postConsuming|snapshot verified against the preliminary head's root", p.InstrPos(c), "RecoverSnapshot2(height, PreliminaryHead.Root(), file)", "the expected root of the imported state is taken from the manifest: any archive whose own root is written into its manifest passes the root check and is switched in (Head.Root() != State.Root())")
+		}
+		if n == 0 {
+			r.Und("C11-R3", "postConsuming|snapshot import", p.Pos(pc.Pos()), "RecoverSnapshot2 not called")
+		}
+	}
 	// the snapshot prefix is addressed the same way by everyone: dbm.NewPrefixDB(s.original, BuildDbPrefix(h))
 	{
 		n := 0
